@@ -74,6 +74,13 @@ TEXT = {
         "design_ref": "DESIGN.md §5 C15", "note": "Trusted: Lean kernel; rustc, serde, the proc macros as compiled (observed through the corpus only); zvg's syn read-back; the Python corpus generator and its heck port (checked against heck every run).",
         "technique": "Lean 4 proof (names/keys/shapes/keywords/lifetimes of the generator model, for all interface trees) + translator-extracted tables + compile-and-run correspondence of generated code over a generated IDL corpus",
     },
+    "C16": {
+        "level": "Machine-checked theorems: the std-type table extracted from the current source (32 parameterless impls, 15 constructor impls) is exactly the table the property describes (integers to int, floats to float, strings and chars to string, Option to ?, sequences and sets to [], string-keyed maps to [string], unit to the empty object, wrappers transparent), in both directions; "
+                 "lifted by induction to every Rust type expression (idlType = specTy, including that a type outside the rules has no impl); the derives list exactly the fields / variants, in declaration order, under their Rust names, with doc comments as comments. "
+                 "A corpus of 80 (quick) / 400 (thorough) generated modules is compiled with the derives on every run; TYPE / CUSTOM_TYPE / VARIANTS and the assembled interface's text and re-parse are compared with the model and the oracle.",
+        "design_ref": "DESIGN.md §5 C16", "note": "Trusted: Lean kernel; the extractor's regexes over type/*.rs (the table theorems are re-checked against their output on every run); rustc trait resolution and macro expansion as compiled; the Python corpus generator.",
+        "technique": "Lean 4 proof over a translator-extracted impl table (table agreement by kernel evaluation, lifted by induction) + compile-and-run correspondence over a generated derive corpus; round trip by Lean oracle on the implementation's text",
+    },
     "C13": {
         "level": "PARTIAL proof + exhaustive-style correspondence. Machine-checked: parsing is total with two outcomes (the model has no panic path; the real parser is run under catch_unwind on every text); the type-name and field-name lexers accept exactly "
                  "the grammar's regular expressions with longest match (soundness and completeness). The parser model is a function-by-function port (winnow combinator semantics included) that agrees with the real parser on ~65k (quick) / ~1.5M (thorough) "
